@@ -67,7 +67,7 @@ def operator_grammars(nops):
     return out
 
 
-def generated(ck, n):
+def generated(ck, n, n_ebnf):
     g = ck.tlc("GramGen", constants={"K": 3, "MaxSeq": 2}, workers=4, count=False, timeout=600)
     if "GENERATED" not in g.out:
         raise vp.Infra("GramGen failed:\n" + g.out[-2000:])
@@ -80,9 +80,26 @@ def generated(ck, n):
     def rule(name, rhs):
         return {"k": "rule", "name": name, "dk": "", "val": "", "rhs": rhs, "assoc": "", "hs": []}
     specs = [{"fam": "gen", "decls": [rule("start", bodies[a]), rule("x", bodies[b])]} for a, b in pairs]
+    # End-to-end family: specifications that use the EBNF operators ( ) [ ] { } {{ }}, several of them over the same
+    # alternatives (C01's generator).  For these the reference language is the documented meaning of the operators
+    # (Ebnf!Denot), so "the table accepts exactly the sentences of that grammar" is decided from the text of the
+    # specification to the returned table, not only from the derived productions on.
+    e = ck.tlc("EbnfGen", constants={"K": 4, "MaxSize": 3, "ShareSize": 2}, workers=4, count=False, timeout=900)
+    if "GENERATED" not in e.out:
+        raise vp.Infra("EbnfGen failed:\n" + e.out[-2000:])
+    eb = [r for r in vp.read_ndjson(os.path.join(ck.work, "tla", "gen_specs.ndjson")) if r["fam"] in ("F1", "F2")]
+    f2 = [r for r in eb if r["fam"] == "F2"]
+    f1 = [r for r in eb if r["fam"] == "F1"]
+    f1 = rnd.sample(f1, min(len(f1), n_ebnf))
+    specs += [{"fam": "ebnf", "decls": r["decls"]} for r in f2 + f1]
     vp.write_ndjson(os.path.join(ck.work, "tla", "gen_specs.ndjson"), specs)
     ck.run_harness(["ebnf-print", "-in", "tla/gen_specs.ndjson", "-out", "tla/gen_texts.ndjson"])
-    return vp.read_ndjson(os.path.join(ck.work, "tla", "gen_texts.ndjson")), len(bodies)
+    texts = vp.read_ndjson(os.path.join(ck.work, "tla", "gen_texts.ndjson"))
+    if len(texts) != len(specs):
+        raise vp.Infra("ebnf-print returned %d texts for %d specifications" % (len(texts), len(specs)))
+    for t, sp in zip(texts, specs):
+        t["fam"], t["decls"] = sp["fam"], sp["decls"]
+    return texts, len(bodies)
 
 
 TAGS = {"SILENTLYRESOLVED": "a conflict remains after the documented resolution but emerge returned a table",
@@ -90,7 +107,8 @@ TAGS = {"SILENTLYRESOLVED": "a conflict remains after the documented resolution 
         "NOCONFLICTREPORT": "rejected without a conflict report",
         "TABLEDIFF": "the returned table is not the LALR(1) table of the grammar",
         "LANGUAGE": "the returned table does not accept exactly the sentences of the grammar",
-        "PRECEDENCE": "x o1 x o2 x is not grouped as the precedence table dictates"}
+        "PRECEDENCE": "x o1 x o2 x is not grouped as the precedence table dictates",
+        "ENDTOEND": "the returned table does not accept exactly the sentences the specification denotes (documented meaning of ( ) [ ] { } {{ }})"}
 
 
 def decide(ck, arts, k):
@@ -119,7 +137,7 @@ def decide(ck, arts, k):
         for d in r.printed(tag):
             a = arts[d["id"]]
             ck.violation("%s: %s %r %s" % (what, a["id"], a["text"].replace("\n", " "), a["terr"][:100].replace("\n", " ")),
-                         {"property": "C06", "kind": tag, "id": a["id"], "text": a["text"]})
+                         {"property": "C06", "kind": tag, "id": a["id"], "text": a["text"], "decls": a.get("decls", [])})
     return r
 
 
@@ -132,16 +150,26 @@ def run(ck):
         vp.write_ndjson(os.path.join(ck.work, "tla", "lalr_in.ndjson"), [{"id": rp.get("id", "R"), "fam": "op" if rp.get("id", "").startswith("op-") else "r", "text": rp["text"]}])
         ck.run_harness(["lalr-export", "-in", "tla/lalr_in.ndjson", "-out", "tla/lalr.ndjson"])
         arts = {a["id"]: a for a in vp.read_ndjson(os.path.join(ck.work, "tla", "lalr.ndjson"))}
+        for a in arts.values():
+            a["decls"] = rp.get("decls", [])
+        vp.write_ndjson(os.path.join(ck.work, "tla", "lalr.ndjson"), list(arts.values()))
         decide(ck, arts, k)
         ck.sample({"replayed": rp["text"]})
         return ck.finish()
     cases = [{"id": n, "fam": "textbook", "text": t} for n, t in TEXTBOOK.items()]
     cases += [{"id": n, "fam": "op", "text": t} for n, t in operator_grammars(3).items()]
-    gen, nb = generated(ck, 1500 if quick else 12000)
-    cases += [{"id": g["id"], "fam": "gen", "text": g["text"]} for g in gen]
+    gen, nb = generated(ck, 1500 if quick else 12000, 250 if quick else 2500)
+    decls = {}
+    for i, g in enumerate(gen):
+        gid = "%s-%d" % (g["fam"], i)
+        decls[gid] = g["decls"]
+        cases.append({"id": gid, "fam": g["fam"], "text": g["text"]})
     vp.write_ndjson(os.path.join(ck.work, "tla", "lalr_in.ndjson"), cases)
     ck.run_sharded("lalr-export", "tla/lalr_in.ndjson", "tla/lalr.ndjson", timeout=1800)
     arts = {a["id"]: a for a in vp.read_ndjson(os.path.join(ck.work, "tla", "lalr.ndjson"))}
+    for a in arts.values():
+        a["decls"] = decls.get(a["id"], [])
+    vp.write_ndjson(os.path.join(ck.work, "tla", "lalr.ndjson"), list(arts.values()))
     nb_built = sum(1 for a in arts.values() if a["built"])
     ck.log("%d grammars: %d tables returned, %d conflict reports" % (len(arts), nb_built, sum(1 for a in arts.values() if a["conflict"])))
     if ck.args.selftest:
@@ -163,4 +191,4 @@ def run(ck):
                        "conflict resolution as documented: earlier level wins; same level: @left reduce, @right shift, @none unresolved; production = its leftmost terminal",
                        "language compared on all terminal strings up to length %d; state 0 is the initial state of a returned table" % k]
     return ck.finish({"exhaustive": True, "grammars": len(arts), "textbook": len(TEXTBOOK), "operator_tables": sum(1 for a in arts.values() if a["fam"] == "op"),
-                      "generated": len(gen), "generated_space": nb * nb, "tables_returned": nb_built, "K": k})
+                      "generated": sum(1 for g in gen if g["fam"] == "gen"), "end_to_end_specs": sum(1 for g in gen if g["fam"] == "ebnf"), "generated_space": nb * nb, "tables_returned": nb_built, "K": k})
